@@ -379,18 +379,17 @@ def run_optimized(module: str, func: str, jobs: Sequence, flags: Sequence[str] =
 
 def main_wrapper(fn: Callable[[], int]) -> None:
     # a check never hangs: after a (generous) limit it ends as a machinery error
-    import signal
+    import threading
     limit = int(os.environ.get('VERIF_CHECK_TIMEOUT',
                                '3600' if os.environ.get('VERIF_TIER_RUNNING', 'quick') == 'quick' else '28000'))
 
-    def on_alarm(signum, frame):
+    def on_limit():
         print(f'MACHINERY-ERROR: the check did not finish within {limit} s', file=sys.stderr)
+        sys.stderr.flush()
         os._exit(2)
-    try:
-        signal.signal(signal.SIGALRM, on_alarm)
-        signal.alarm(limit)
-    except (ValueError, OSError):
-        pass
+    wd = threading.Timer(limit, on_limit)
+    wd.daemon = True
+    wd.start()
     try:
         rc = fn()
     except MachineryError as e:
